@@ -1,5 +1,5 @@
 From Coq Require Import List NArith Arith Permutation Sorted.
-From SK Require Import lib.LGraph lib.Mono model.C11_Model proof.C11_Aut proof.C11_WL proof.C11_Dedup proof.C11_Main proof.C11_Comp proof.C11_VF2 proof.C11_Vocab proof.C11_Sig proof.C11_Anchor model.C11_State proof.C11_StateProof model.C11_Partial proof.C11_PartialProof proof.C11_PruneClass proof.C11_WLPart proof.C11_Idem model.C11_Keys model.C11_Attr proof.C11_AttrProof model.C11_Orbit proof.C11_OrbitProof proof.C11_Extend model.C11_Order proof.C11_OrderProof model.C11_Views proof.C11_ViewsProof proof.C11_Singleton proof.C11_Count proof.C11_WLMono model.C11_AttrFull proof.C11_Subset model.C11_State2 proof.C11_State2Proof.
+From SK Require Import lib.LGraph lib.Mono model.C11_Model proof.C11_Aut proof.C11_WL proof.C11_Dedup proof.C11_Main proof.C11_Comp proof.C11_VF2 proof.C11_Vocab proof.C11_Sig proof.C11_Anchor model.C11_State proof.C11_StateProof model.C11_Partial proof.C11_PartialProof proof.C11_PruneClass proof.C11_WLPart proof.C11_Idem model.C11_Keys model.C11_Attr proof.C11_AttrProof model.C11_Orbit proof.C11_OrbitProof proof.C11_Extend model.C11_Order proof.C11_OrderProof model.C11_Views proof.C11_ViewsProof proof.C11_Singleton proof.C11_Count proof.C11_WLMono model.C11_AttrFull proof.C11_Subset model.C11_State2 proof.C11_State2Proof model.C11_Attr3 proof.C11_Attr3Proof.
 Import ListNotations.
 
 (** Vocabulary (definitions in proof/C11_Aut.v, written out here for the reader):
@@ -672,3 +672,18 @@ Theorem C11_est_index_state :
           end) prev gs).
 Proof. exact est_index_state. Qed.
 Print Assumptions C11_est_index_state.
+
+(** The graph with all three node labels and both edge labels, built inside the model from the attribute dictionaries
+    (round 5; model/C11_Attr3.v [to_graph3]; the pattern / host of every dedup case, the views and the object histories
+    are evaluated on it - no label is computed in Python any more).  Under each reading its automorphisms are the maps
+    preserving the corresponding attribute data: the default keys of the exact analysis, the reactor's four estimate
+    keys, the whole dictionaries without atom_map. *)
+Theorem C11_three_views :
+  forall ag : agraph,
+    node_ids (to_graph3 ag) = node_ids ag /\
+    (wf ag -> wf (to_graph3 ag)) /\
+    (forall s, is_automorphism n_exact e_order (to_graph3 ag) s <-> attr_automorphism DEF_NODE DEF_EDGE ag s) /\
+    (forall s, is_automorphism n_wl e_order (to_graph3 ag) s <-> attr_automorphism WL4 DEF_EDGE ag s) /\
+    (forall s, is_automorphism n_full e_full (to_graph3 ag) s <-> rule_automorphism [K_atom_map] ag s).
+Proof. exact three_views. Qed.
+Print Assumptions C11_three_views.
